@@ -110,6 +110,21 @@ class ActionTable:
                 yield ("privesc", (s, h), name), \
                     [1, s - 1, h, osi, 0, cfg.processes.index(p["process"])]
 
+    def _same_type_other(self, plain):
+        if not hasattr(self, "_by_type"):
+            self._by_type = {}
+            for k in self.keys:
+                v = self.by_key[k]
+                self._by_type.setdefault(v[0], []).append(v)
+        pool = self._by_type.get(plain[0], ())
+        if len(pool) < 2:
+            return None
+        try:
+            i = pool.index(list(plain))
+        except ValueError:
+            i = 0
+        return pool[(i + 1) % len(pool)]
+
     def encode(self, plain, enc, wrap=0):
         if not self.flat and wrap and enc != "action":
             # the host parameter is documented to wrap around the subnet's
@@ -145,7 +160,14 @@ class ActionTable:
                 return np.array(plain, dtype=np.uint8 if max(plain) < 256
                                 else np.int64)
             if enc == "action":
-                return self.env.action_space.get_action(list(plain))
+                # the agent decodes a batch of vectors first and steps the
+                # Action objects afterwards: here, one more vector of the
+                # same action type is decoded before the first is used
+                obj = self.env.action_space.get_action(list(plain))
+                other = self._same_type_other(plain)
+                if other is not None:
+                    self.env.action_space.get_action(list(other))
+                return obj
             if enc == "buffer":
                 # one caller-owned array reused for every action, as an agent
                 # with a preallocated buffer would do; the agent writes only
@@ -224,6 +246,19 @@ class EnvSim:
             except Exception as e:
                 raise SutError("build", e)
         self.layout = Layout(self.cfg)
+        if env is None and scenario is None and seed % 11 in (3, 7):
+            # the environment is built from a COPY of the scenario object
+            # (copy.deepcopy / pickle round trip), the original stays around
+            import copy
+            import pickle
+            self._scenario_original = self.scenario
+            try:
+                self.scenario = copy.deepcopy(self.scenario) \
+                    if seed % 11 == 3 else \
+                    pickle.loads(pickle.dumps(self.scenario))
+                self.counters.hit("fault.scenario_copied")
+            except Exception as e:
+                raise SutError("build", e)
         if env is not None:
             self.env = env
         else:
@@ -421,6 +456,7 @@ class EnvSim:
         self.episode_over = False
         self.ledger = oracles.EpisodeLedger(self.cfg)
         self.cur_sid = self.keep_state(env.current_state)
+        self.start_sid = self.cur_sid
         post = read_status(env.current_state, self.cfg)
         self.note_state(post)
         self.oracle.after_reset(out, post, first)
@@ -430,10 +466,29 @@ class EnvSim:
             self.init_obs = np.array(out[0], copy=True)
         self._scribble(out[0])
 
+    def _hold(self, arr):
+        """The caller keeps what reset()/step() returned: a later call must
+        not change it (it is the observation of THAT moment)."""
+        held = getattr(self, "_held", None)
+        if held is not None and self.props & {"C08", "C10"}:
+            ref, snap = held
+            if not np.array_equal(ref, snap):
+                self._held = None
+                raise Violation(
+                    "C08.stable" if "C08" in self.props else "C10.stable",
+                    "an observation array returned by an earlier reset()/"
+                    "step() was changed by a later call",
+                    cells_changed=int(np.sum(ref != snap)))
+        if isinstance(arr, np.ndarray) and self.seed % 4 != 0:
+            self._held = (arr, np.array(arr, copy=True))
+        else:
+            self._held = None
+
     def _scribble(self, arr):
         """The caller owns what reset()/step() returned: writing into it
         (in-place normalisation, buffer reuse) must not affect the
         environment."""
+        self._hold(arr)
         if self.seed % 4 == 0 and isinstance(arr, np.ndarray) and \
                 arr.flags.writeable:
             arr[...] = 9.0
@@ -493,14 +548,61 @@ class EnvSim:
         elif kind == "burst":
             self._exec_burst(op)
         elif kind == "fork":
-            # the agent continues with copy.deepcopy(env); the original stays
-            # alive but is not stepped any more
+            # the agent continues with a copy of the environment
+            # (copy.deepcopy or a pickle round trip); the original stays
+            # alive and - "with": "orig" - is stepped a few times first
             import copy
+            import pickle
             try:
                 self._originals = getattr(self, "_originals", []) + [self.env]
-                self.env = copy.deepcopy(self.env)
+                if op.get("how") == "pickle":
+                    try:
+                        blob = pickle.dumps(self.env)
+                    except Exception:
+                        # whether an environment can be pickled is nobody's
+                        # promise; a deep copy always is a copy
+                        blob = None
+                        self.counters.hit("fork.pickle_refused")
+                    new = pickle.loads(blob) if blob is not None \
+                        else copy.deepcopy(self.env)
+                else:
+                    new = copy.deepcopy(self.env)
             except Exception as e:
                 raise SutError("deepcopy", e)
+            old = self.env
+            if self.props & {"C04", "C06", "C08", "C09", "C10", "C13"}:
+                same = (np.array_equal(new.current_state.tensor,
+                                       old.current_state.tensor),
+                        np.array_equal(new.last_obs.tensor,
+                                       old.last_obs.tensor),
+                        new.steps == old.steps)
+                if not all(same):
+                    names = ("current state", "last observation",
+                             "step counter")
+                    clause = "C08.copy" if "C08" in self.props else (
+                        "C06.limit" if "C06" in self.props and same[0]
+                        and same[1] else sorted(self.props)[0] + ".copy")
+                    raise Violation(
+                        clause, "a copy of the environment (copy.deepcopy /"
+                        " pickle round trip) is not in the state the "
+                        "original is in", differs=[
+                            n for n, ok in zip(names, same) if not ok],
+                        how=op.get("how", "deepcopy"))
+            keep_rng = np.random.get_state()
+            for _ in range(int(op.get("orig_steps", 0))):
+                # the original goes on for a while (its own business; the
+                # global generator is put back afterwards, so that in
+                # unscripted runs the copy sees the draws it would have seen)
+                try:
+                    self.rnd.push([0.5, 0.5])
+                    old.action_space.seed(7)
+                    out = old.step(old.action_space.sample())
+                    if out[2] or out[3]:
+                        old.reset()
+                except Exception:
+                    break
+            np.random.set_state(keep_rng)
+            self.env = new
             self.table = ActionTable(self.env, self.cfg)
             self.__dict__.pop("_pre_cache", None)
             self.states.clear()
@@ -574,6 +676,14 @@ class EnvSim:
         # the same outputs
         snap = (rec["post_t"].tobytes(), rec["obs2d"].tobytes(),
                 float(rec["reward"]), bool(rec["done"]), rec["info_snap"])
+        if "C07" in self.props and op.get("drop") and \
+                rec["act"].kind in ("exploit", "privesc") and \
+                rec.get("u") is not None and rec["u"] < rec["act"].prob:
+            # the same look-ahead with a draw above the probability: a
+            # refused action must be refused under both draws
+            hi = self.oracle.transition(state, obj, x, [0.9999999] * 3,
+                                        background=True, tag="twin_hi")
+            self.oracle._c07_twins(rec, hi, rec)
         if "C13" in self.props and src != "cur" and len(self.ops) % 2 == 0:
             # a generative step is a function of the state's VALUE: an equal
             # copy of the state (a new object) must give the same outputs
@@ -651,8 +761,17 @@ class EnvSim:
         return {"op": "reject", "call": call, "how": how,
                 "a": [k[0], list(k[1]), k[2]]}
 
+    GENERIC_REJECT = {"g_float": ("float", "floats"),
+                      "g_float_np": ("float64", "float_array"),
+                      "g_oob": ("index_n", "type6"),
+                      "g_none": ("none", "none"),
+                      "g_wrong_kind": ("in_list", "scalar")}
+
     def _reject_arg(self, op):
         how = op["how"]
+        if how in self.GENERIC_REJECT:
+            # the same mistake, made in whatever action space this is
+            how = self.GENERIC_REJECT[how][0 if self.table.flat else 1]
         if op["call"] == "reset":
             return {"neg": -1, "float": 1.5, "str": "abc",
                     "int64": np.int64(5)}[how]
@@ -676,7 +795,7 @@ class EnvSim:
     def _exec_reject(self, op):
         env = self.env
         arg = self._reject_arg(op)
-        if arg is None and op["how"] != "none":
+        if arg is None and op["how"] not in ("none", "g_none"):
             return
         self.counters.hit("fault.rejected_call." + op["call"])
         try:
@@ -861,8 +980,14 @@ class EnvSim:
                     k = wl.choice(self.table.keys)
                     op = {"op": "marathon", "a": [k[0], list(k[1]), k[2]],
                           "n": 33000}
-                elif wl.random() < 0.004:
-                    op = {"op": "fork"}
+                elif wl.random() < 0.004 or (
+                        core.h64(f"{self.seed}|fork") % 6 == 0
+                        and core.h64(f"{self.seed}|fk|{len(self.ops)}")
+                        % 25 == 0):
+                    hk = core.h64(f"{self.seed}|fh|{len(self.ops)}")
+                    op = {"op": "fork",
+                          "how": "pickle" if hk % 2 else "deepcopy",
+                          "orig_steps": (hk // 2) % 4}
                 elif "C07" in self.props and wl.random() < 0.003:
                     op = {"op": "epfreq", "pick": wl.randint(0, 50),
                           "n": 500, "seed_first": wl.choice(
@@ -890,6 +1015,21 @@ class EnvSim:
             self.exec_op(op)
             if op["op"] == "reset" and wl.random() < 0.1:
                 self.exec_op({"op": "reset"})      # double reset
+            if op["op"] == "step" and not self.quiet and self.state_sids \
+                    and (swarm.p_gstep > 0 or swarm.p_rollout > 0) \
+                    and op["a"][0] in ("exploit", "privesc") \
+                    and core.h64(f"{self.seed}|rt|{len(self.ops)}") % 5 == 0:
+                # planner pattern: the action just taken is tried right away
+                # on a state kept from earlier (where it may not apply)
+                hh = core.h64(f"{self.seed}|rts|{len(self.ops)}")
+                src = self.state_sids[hh % len(self.state_sids)]
+                if hh % 2 and getattr(self, "start_sid", None) \
+                        in self.states:
+                    src = self.start_sid     # the state the episode began in
+                if src in self.states:
+                    self.exec_op({"op": "gstep", "src": src, "a": op["a"],
+                                  "u": [float(1e-9).hex()] * 3,
+                                  "drop": True})
 
     def _gen_reset(self, wl):
         """reset(), sometimes through the other documented Gymnasium
@@ -946,6 +1086,12 @@ class EnvSim:
         """Model-guided choice of an action key."""
         cfg = self.cfg
         table = self.table
+        if self.props & {"C01", "C02", "C03"} and \
+                core.h64(f"{self.seed}|nm|{len(self.ops)}") % 8 == 0:
+            k = self._near_miss(status)
+            if k is not None:
+                self.counters.hit("workload.near_miss")
+                return k
         r = wl.random()
         if r < swarm.p_productive:
             k = self._productive(wl, status)
@@ -961,6 +1107,54 @@ class EnvSim:
                 return wl.choice(table.by_target[t])
         self.counters.hit("workload.uniform")
         return wl.choice(table.keys)
+
+    def _root_pivot_miss(self, status):
+        cfg, table = self.cfg, self.table
+        roots = [h for h in cfg.order if status[h][0] and status[h][3] >= 2]
+        if not roots:
+            return None
+        cands = []
+        for t in cfg.order:
+            if not model.visible(status, t) or cfg.public(t[0]):
+                continue
+            if any(r[0] == t[0] or cfg.connected(r[0], t[0]) for r in roots):
+                continue
+            if not any(status[c][0] and (c[0] == t[0]
+                                         or cfg.connected(c[0], t[0]))
+                       for c in cfg.order):
+                continue
+            for k in table.by_target.get(t, ()):
+                if k[0] in ("service_scan", "os_scan", "exploit"):
+                    cands.append(k)
+        if not cands:
+            return None
+        return cands[core.h64(f"{self.seed}|rpc|{len(self.ops)}")
+                     % len(cands)]
+
+    def _near_miss(self, status):
+        """An exploit on a visible host whose host-level preconditions hold
+        and that is refused by the network only (no admitted traffic from
+        any single position / no pivot): the refusal must hold whatever the
+        draw says.  Deterministic in (seed, op count, state)."""
+        cfg, table = self.cfg, self.table
+        cands = []
+        for t in cfg.order:
+            if not model.visible(status, t) or status[t][3] >= 2:
+                continue
+            for k in table.by_target.get(t, ()):
+                if k[0] != "exploit":
+                    continue
+                a = self._act_of_key(k)
+                if a is None or not model.host_pre(cfg, status, a):
+                    continue
+                if not model.net_pre(cfg, status, a):
+                    cands.append(k)
+            if len(cands) > 12:
+                break
+        if not cands:
+            return None
+        return cands[core.h64(f"{self.seed}|nmc|{len(self.ops)}")
+                     % len(cands)]
 
     def _productive(self, wl, status):
         """An action the reference semantics says is enabled and useful."""
@@ -1010,6 +1204,18 @@ class EnvSim:
         status = read_status(self.env.current_state, self.cfg)
         k = self._pick_action(wl, swarm, status)
         a = self._act_of_key(k)
+        if "C02" in self.props and \
+                core.h64(f"{self.seed}|rp|{len(self.ops)}") % 10 == 0:
+            # a self-built remote action that needs ROOT on its pivot, aimed
+            # at a host whose neighbourhood holds USER pivots only while a
+            # ROOT host exists elsewhere: must be refused
+            k2 = self._root_pivot_miss(status)
+            if k2 is not None:
+                self.counters.hit("workload.root_pivot_miss")
+                return {"op": "step", "a": [k2[0], list(k2[1]), k2[2]],
+                        "enc": "custom_root",
+                        "u": self._gen_draws(fl, swarm,
+                                             self._act_of_key(k2))}
         if self.props & {"C01", "C02"} and wl.random() < 0.05 and \
                 k[0] != "noop":
             return {"op": "step", "a": [k[0], list(k[1]), k[2]],
@@ -1151,6 +1357,15 @@ def run_one(prop, tier, root, idx, extra):
         p["address_space_bounds"] = None
         p["uniform"] = False
         spec = {"kind": "generated", "params": configs.fix_params(p, cfgr)}
+    c3 = core.stream(seed, "cfg3")
+    if c3.random() < extra.get("big_rate", 0.0):
+        # a network whose state tensor has well over a thousand cells
+        p = configs.gen_params(c3, max_hosts=30)
+        p["num_hosts"] = c3.randint(32, 60)
+        p["address_space_bounds"] = None
+        if c3.random() < 0.7:
+            p["exploit_probs"] = c3.choice([0.5, 0.7, "mixed"])
+        spec = {"kind": "generated", "params": configs.fix_params(p, c3)}
     mt = cfgr.choice(extra.get("modes") or MODE_TRIPLES)
     modes = {"fully_obs": mt[0], "flat_actions": mt[1], "flat_obs": mt[2]}
     swarm = Swarm(core.stream(seed, "swarm"), props)
@@ -1288,5 +1503,6 @@ def execute(spec, modes, props, seed, tier, res, gen=None, ops=None,
         res["states"] = []
         res["classes"] = []
         res["trace"] = {"spec": spec, "modes": modes, "seed": seed,
-                        "props": sorted(props), "ops": []}
+                        "props": sorted(props), "ops": [],
+                        "shadow": shadow, "prelude": prelude}
     return res
